@@ -641,13 +641,18 @@ impl RunCtx {
         let target: RefCell<Option<String>> = RefCell::new(None);
         let done = Cell::new(0u64);
         let mut attempt = 0u64;
+        // shrink budget of this shard, shared by all keys it captures (a quarter of what is left
+        // per key), so that a tree with many distinct failures still finishes
+        let mut shrink_left: u32 = self.shrink_iters.load(std::sync::atomic::Ordering::Relaxed);
         while done.get() < cases && captured.borrow().len() < self.max_new_keys {
             let remaining = cases - done.get();
+            let this_shrink = (shrink_left / 4).max(64);
+            shrink_left = shrink_left.saturating_sub(this_shrink);
             let cfg = Config {
                 cases: remaining.min(u32::MAX as u64) as u32,
                 failure_persistence: None,
                 rng_seed: RngSeed::Fixed(mix(seed, attempt)),
-                max_shrink_iters: self.shrink_iters.load(std::sync::atomic::Ordering::Relaxed),
+                max_shrink_iters: this_shrink,
                 max_shrink_time: 0,
                 verbose: 0,
                 max_global_rejects: 1,
